@@ -10,8 +10,10 @@
 mod c06;
 mod c07;
 mod c09;
+mod c12;
 mod c13;
 mod c16;
+mod disk;
 mod framework;
 mod model;
 mod refdigest;
@@ -146,6 +148,7 @@ fn main() {
         "C06" => dispatch(&c06::C06, &opts, replay_file),
         "C07" => dispatch(&c07::C07, &opts, replay_file),
         "C09" => dispatch(&c09::C09, &opts, replay_file),
+        "C12" => dispatch(&c12::C12, &opts, replay_file),
         "C13" => dispatch(&c13::C13, &opts, replay_file),
         "C16" => dispatch(&c16::C16, &opts, replay_file),
         _ => {
@@ -153,5 +156,6 @@ fn main() {
             2
         }
     };
+    disk::cleanup_all();
     std::process::exit(code);
 }
